@@ -76,6 +76,13 @@ impl Subst {
     /// Reference unification. `$_` matches anything and never binds or is bound to
     /// (a variable unified with a bare `$_` stays unbound).
     pub fn unify(&mut self, a: &RT, b: &RT) -> bool {
+        // a variable unifies with itself whatever it is bound to: if the two binding chains meet at a variable the
+        // terms are identical (this only matters for a variable bound to NaN, which is not equal to itself as a value)
+        if let (RT::Var(_), RT::Var(_)) = (a, b) {
+            let chain = |me: &Subst, t: &RT| -> Vec<usize> { let mut out = vec![]; let mut cur = t.clone(); while let RT::Var(v) = cur { if out.contains(&v) { break; } out.push(v); match &me.bind[v] { Some(n) => cur = n.clone(), None => break } } out };
+            let (ca, cb) = (chain(self, a), chain(self, b));
+            if ca.iter().any(|v| cb.contains(v)) { return true; }
+        }
         let a = self.walk(a);
         let b = self.walk(b);
         match (&a, &b) {
